@@ -65,7 +65,7 @@ def _rle(amp, w):
 
 # ---- hand-over forms (audit 9.7): how the three numbers, the sampling rate and the signal reach the object ----
 NFORMS = 8
-FS = [1, 2, 0.5, 30000, 2500.0, np.float64(1000.0)]
+FS = [1, 2, 0.5, 30000, 2500.0, np.float64(1000.0), np.int16(30000), np.uint16(40000), np.int8(100), np.int32(30000)]      # narrow NumPy integers: nothing may be computed in the type of the rate
 SA_LIM = 300000        # slice_array is exercised on a real signal up to this length
 
 
